@@ -135,6 +135,15 @@ impl PartitionConfirmationState {
             return false;
         }
 
+        // Reports can arrive out of order: a stale lower count must not replace a higher
+        // count that was already reported for this version
+        let confirmation_count = self
+            .unconfirmed_events
+            .get(&version)
+            .map_or(confirmation_count, |event| {
+                event.confirmation_count.max(confirmation_count)
+            });
+
         // Update or create unconfirmed event entry
         let now = SystemTime::now()
             .duration_since(UNIX_EPOCH)
